@@ -29,7 +29,7 @@ ASSUMPTIONS = ['base64, gzip, urllib.parse, hashlib of CPython', 'routes are com
                'svg_data_uri: attribute values and titles containing quote characters are not generated (the URI-specific quote '
                'substitution is not invertible for them; observation recorded in DESIGN.md)']
 REQUIRED = ['evaluations', 'route_groups_checked', 'route:path', 'route:path-upper', 'route:stream-kind', 'route:stream-name',
-            'route:svgz-path', 'route:svgz-kind', 'route:png-data-uri', 'route:svg-data-uri', 'route:svg-inline', 'route:cli-main', 'route:cli-main-upper',
+            'route:svgz-path', 'route:svgz-kind', 'route:svgz-kind-named-stream', 'route:stream-name-and-kind', 'route:png-data-uri', 'route:svg-data-uri', 'route:svg-inline', 'route:cli-main', 'route:cli-main-upper',
             'route:cli-subprocess', 'cli_terminal_checked', 'cli_terminal_other_stdout_encoding', 'cli_content_with_trailing_white_space', 'sequence_terminal_checked', 'route:cli-main-svgz', 'sequence_saves_checked', 'sequence_cli_checked', 'unknown_extension_refused',
             'audit_open_events']
 TIMEOUT = {'quick': 3600, 'thorough': 21600}
@@ -167,18 +167,27 @@ def gen_cases(tier, seed):
                 content += rng.choice(['\n', '\r\n', '\r', ' ', '\t', '\n\n', ' \n'])
             elif r < 0.22:
                 # content that starts like something a command line parser might want to interpret
-                content = rng.choice(['@', '@segno', '@/etc/hostname ', '%', '~', '$HOME ', '*', '\\']) + content
+                content = rng.choice(['@', '@segno', '@/etc/hostname ', '%', '~', '$HOME ', '*', '\\', '\ufeff', '\u200b', '\xa0']) + content
             elif r < 0.37 and ' ' in content.strip() and '  ' not in content and not any(w.startswith('-') for w in content.split(' ')):
                 split = True      # several content arguments are joined with one blank
         cases.append({'kind': 'routes', 'out': kind, 'content': content, 'make': mk, 'kw': kw, 'split_args': split,
                       'subprocess': rng.random() < (0.12 if tier == 'quick' else 0.05)})
+    # always: content that begins or ends with something a command line front end might want to interpret or tidy up
+    for j, fix in enumerate(['@', '@segno', '%', '~', '*', '\\', '\ufeff', '\u200b', '\xa0', ' ', '\t', '-', '--', '+', '#', '"', "'"]):
+        for where in ('prefix', 'suffix'):
+            body = gen.content_for_bits('alphanumeric', 6 + j % 5)
+            content = fix + body if where == 'prefix' else body + fix
+            if content.startswith('-'):
+                continue      # would be an option for any argparse program: given after `--` by convention, not this route
+            cases.append({'kind': 'routes', 'out': ['txt', 'png', 'svg', 'pbm'][j % 4], 'content': content, 'make': {'micro': False}, 'kw': {},
+                          'split_args': False, 'subprocess': j % 6 == 0})
     for i in range(40 if tier == 'quick' else 400):
         micro = rng.random() < 0.3
         cases.append({'kind': 'terminal', 'content': gen.content_for_bits('alphanumeric', rng.randint(1, 8 if micro else 30)),
                       'border': rng.choice([None, 0, 1, 3]), 'compact': rng.random() < 0.5, 'micro': micro,
                       'subprocess': i % 5 == 0})
     # always: every stdout encoding of run_terminal (chosen by the content length mod 6) with and without --compact
-    for n_ in range(6, 12):
+    for n_ in range(6, 20):
         for compact in (True, False):
             cases.append({'kind': 'terminal', 'content': gen.content_for_bits('alphanumeric', n_), 'border': rng.choice([None, 1]),
                           'compact': compact, 'micro': False, 'subprocess': True})
@@ -271,6 +280,10 @@ def make_flags(mk, content):
     return argv
 
 
+def rng_name(i):
+    return ['n.svgz', 'n.svg', 'n.bin', 'noext'][i % 4]
+
+
 def run_routes(case, rec, tmp, opened):
     import segno
     from segno import cli
@@ -300,10 +313,18 @@ def run_routes(case, rec, tmp, opened):
     out = NamedStringIO('n.%s' % kind) if text else NamedBytesIO('n.%s' % mixed)
     q.save(out, **kw)
     res['stream-name'] = as_bytes(out.getvalue())
+    # a stream that has a name *and* an explicit kind: the kind decides (the name may say anything)
+    other = 'n.dat' if len(opened) % 3 else ('n.%s' % ('txt' if kind != 'txt' else 'png'))
+    out = NamedStringIO(other) if text else NamedBytesIO(other)
+    q.save(out, kind=kind if len(opened) % 2 else kind.upper(), **kw)
+    res['stream-name-and-kind'] = as_bytes(out.getvalue())
     if kind == 'svg':
         skw = dict(kw)
         if svgz_level is not None:
             skw['compresslevel'] = svgz_level
+        out = NamedBytesIO(rng_name(len(opened)))
+        q.save(out, kind='svgz' if len(opened) % 2 else 'SVGZ', **skw)
+        res['svgz-kind-named-stream'] = gzip.decompress(out.getvalue())
         p = os.path.join(tmp, 'r5.svgz')
         q.save(p, **skw)
         res['svgz-path'] = gzip.decompress(read(p))
@@ -447,6 +468,9 @@ def run_terminal(case, rec, tmp):
         # to that stdout, the command line tool prints the same bytes
         ioenc = ['ascii:backslashreplace', 'latin-1:replace', 'cp437', 'utf-16', 'ascii:xmlcharrefreplace', 'cp1252:ignore'][len(case['content']) % 6]
         env = dict(core.child_env(), PYTHONIOENCODING=ioenc)
+        # ... and with the environment variables terminal programs like to look at (the output is the same whatever they say)
+        env.update([{}, {'NO_COLOR': '1'}, {'TERM': 'dumb'}, {'CLICOLOR': '0', 'NO_COLOR': 'true'}, {'FORCE_COLOR': '1'}, {'COLORTERM': 'truecolor', 'TERM': 'xterm-256color'},
+                    {'LANG': 'C', 'LC_ALL': 'C'}][(len(case['content']) + int(bool(case['compact']))) % 7])
         prog = ('import segno; segno.make(%r, micro=%r).terminal(border=%r, compact=%r)'
                 % (case['content'], case['micro'], case['border'], case['compact']))
         pa = core.run_sub([sys.executable, '-c', prog], capture_output=True, env=env)
@@ -455,6 +479,7 @@ def run_terminal(case, rec, tmp):
             rec.count('cli_terminal_other_stdout_encoding')
             if pc.returncode != 0 or pc.stdout != pa.stdout:
                 rec.deviation('C12', 'cli-terminal-differs', {'argv': argv, 'rc': pc.returncode, 'subprocess': True, 'PYTHONIOENCODING': ioenc,
+                                                              'env': {k: env[k] for k in ('NO_COLOR', 'TERM', 'CLICOLOR', 'FORCE_COLOR', 'COLORTERM', 'LANG') if k in env},
                                                               'len': (len(pc.stdout), len(pa.stdout))})
 
 
